@@ -353,7 +353,7 @@ pub fn err_s(e: ProofError) -> String {
 impl<E: Engine> Triple<E> {
     pub fn build(spec: &TripleSpec) -> Result<Self, String> {
         let cfg = spec.cfg;
-        let params = E::params(cfg.bits, cfg.cap, cfg.ext).map_err(|e| format!("params: {:?}", e))?;
+        let params = E::params(cfg.bits, cfg.cap, cfg.ext).map_err(|e| format!("{} params: {:?}", crate::runner::SKIP, e))?;
         let mut bulk = ChaCha12Rng::seed_from_u64(spec.bulk);
         // exact capacities: a growing vector would release earlier buffers holding raw copies of the values (C20 scans what is freed)
         let mut values = Vec::with_capacity(cfg.m);
@@ -366,7 +366,7 @@ impl<E: Engine> Triple<E> {
             let v = s.value(cfg.bits, j);
             let p = s.promise(v, j);
             let r: Vec<Scalar> = (0..cfg.ext).map(|k| s.blinding(k, &mut bulk)).collect();
-            commitments.push(E::commit(params.pc_gens(), &Scalar::from(v), &r).map_err(|e| format!("commit: {:?}", e))?);
+            commitments.push(E::commit(params.pc_gens(), &Scalar::from(v), &r).map_err(|e| format!("{} commit: {:?}", crate::runner::SKIP, e))?);
             openings.push(CommitmentOpening::new(v, r.clone()));
             values.push(v);
             promises.push(p);
@@ -374,8 +374,8 @@ impl<E: Engine> Triple<E> {
         }
         let seed = if cfg.m == 1 { spec.seed.scalar() } else { None };
         let st = RangeStatement::init(params.clone(), commitments.clone(), promises.clone(), seed)
-            .map_err(|e| format!("statement: {:?}", e))?;
-        let w = RangeWitness::init(openings).map_err(|e| format!("witness: {:?}", e))?;
+            .map_err(|e| format!("{} statement: {:?}", crate::runner::SKIP, e))?;
+        let w = RangeWitness::init(openings).map_err(|e| format!("{} witness: {:?}", crate::runner::SKIP, e))?;
         Ok(Triple {
             spec: spec.clone(),
             cfg,
